@@ -27,6 +27,6 @@ For each change k (k = 1..{n}) write into {wt}/seed/ (create it):
   - mut{{k}}.diff : the change as `git diff` output against the worktree's HEAD (only library source files under xobjects/, no tests);
   - mut{{k}}_demo.py : a small stand-alone program that exits 0 on the unchanged library and exits non-zero (assertion failure with a clear message) with the change applied; it must import xobjects from PYTHONPATH and not depend on pytest;
   - mut{{k}}.json : {{"property": "{pid}", "summary": one sentence on what was changed, "needs": what is needed for it to manifest, "files": [...]}}.
-Verify each yourself: apply the diff (`git apply seed/mutk.diff`), run the full test suite (must be 163 passed), run the demo (must fail), revert (`git checkout -- xobjects`), run the demo (must pass). Leave the worktree's tracked files reverted at the end (only the untracked seed/ directory remains). Do not commit anything.
+Verify each yourself: apply the diff (`git apply seed/mutk.diff`), run the full test suite (must be 163 passed), run the demo (must fail), revert (`git checkout -- xobjects`), run the demo (must pass). Never use `git stash` (the stash is shared by all worktrees of the repository: another agent would pop yours); revert with `git checkout -- xobjects`. Leave the worktree's tracked files reverted at the end (only the untracked seed/ directory remains). Do not commit anything.
 
 Report back, per change: the one-sentence summary, and the exact outputs of your verification runs (tests passed count, demo exit codes with/without). If a candidate turns out to be caught by the existing tests, discard it and find another.""")
